@@ -29,9 +29,11 @@ fn everything_net(rng: &mut Rng) -> NetCfg {
         LCfg::Conv { filters: c, kernel: (3, 3), stride: (1, 1), padding: (1, 1), dilation: (1, 1), act: act(rng), dropout: drop(rng) },
         LCfg::Feedback {
             body: vec![LCfg::Conv { filters: c, kernel: (1, 1), stride: (1, 1), padding: (0, 0), dilation: (1, 1), act: act(rng), dropout: None }, LCfg::Deconv { filters: c, kernel: (3, 3), stride: (1, 1), padding: (1, 1), act: act(rng), dropout: None }],
-            loops: 2,
-            inskips: false,
-            outskips: false,
+            // 2..4 repetitions, with and without internal skips (with input skips and three or
+            // more repetitions the block's input collects the gradients of several repetitions)
+            loops: rng.range(2, 4),
+            inskips: rng.bool(),
+            outskips: rng.bool(),
             acc: Acc::Mean,
         },
         LCfg::Deconv { filters: 2, kernel: (2, 2), stride: (1, 1), padding: (0, 0), act: act(rng), dropout: drop(rng) },
